@@ -271,6 +271,16 @@ Section Readers.
     | _ => wzero
     end.
 
+  (* the optional columns of the year file (index 3 = ET0, 5 = saturation deficit, 7 = sunshine hours) as a column of
+     values, for a file that wetterk_text reads without error: fed to WeatherModel.opt_year / sund_year *)
+  Definition opt_value (k : nat) (line : str) : T :=
+    match parse_all (firstn 10 (explode SEPS_YEAR line)) with TOk v => nth k v zero | _ => zero end.
+  Definition year_body (numheader : Z) (text : str) : list str :=
+    let ls := scan_lines text in
+    if numheader =? 3 then match skip_lines 2 ls with Some (_ :: rest) => rest | _ => [] end
+    else match skip_lines (Z.to_nat numheader) ls with Some rest => rest | None => [] end.
+  Definition year_column (k : nat) (numheader : Z) (text : str) : list T := map (opt_value k) (year_body numheader text).
+
   (* one line of the loop; state = (Tlast, slot) *)
   Definition year_line (line : str) (Tlast : Z) (s : slot T) : tres (Z * slot T) :=
     let w := explode SEPS_YEAR line in
